@@ -31,6 +31,19 @@ const port = 5001
 type tcpConn struct {
 	net.Conn
 	local, remote int
+	l             *link
+}
+
+func (c tcpConn) Write(b []byte) (int, error) {
+	if c.l != nil {
+		c.l.mu.Lock()
+		broken := c.l.writeBroken
+		c.l.mu.Unlock()
+		if broken {
+			return 0, errors.New("write: broken pipe")
+		}
+	}
+	return c.Conn.Write(b)
 }
 
 func (c tcpConn) LocalAddr() net.Addr { return &net.TCPAddr{IP: net.IPv4(127, 0, 0, 1), Port: c.local} }
@@ -39,10 +52,11 @@ func (c tcpConn) RemoteAddr() net.Addr {
 }
 
 type link struct {
-	ends     [4]net.Conn // iEnd, pI, pA, aEnd
-	mu       sync.Mutex
-	qIA, qAI [][]byte
-	dead     bool
+	ends        [4]net.Conn // iEnd, pI, pA, aEnd
+	mu          sync.Mutex
+	qIA, qAI    [][]byte
+	dead        bool
+	writeBroken bool
 }
 
 func (l *link) kill() {
@@ -232,7 +246,7 @@ func (n *Net) DialContext(ctx context.Context, network, addr string) (net.Conn, 
 	c3, c4 := net.Pipe()
 	l := &link{}
 	l.ends = [4]net.Conn{c1, c2, c3, c4}
-	aEnd := tcpConn{c4, port, 40000}
+	aEnd := tcpConn{c4, port, 40000, l}
 	select {
 	case ch <- aEnd:
 	case <-ctx.Done():
@@ -250,7 +264,7 @@ func (n *Net) DialContext(ctx context.Context, network, addr string) (net.Conn, 
 	n.mu.Unlock()
 	go l.pump(c2, true, n)
 	go l.pump(c3, false, n)
-	return tcpConn{c1, 40000, port}, nil
+	return tcpConn{c1, 40000, port, l}, nil
 }
 
 func (n *Net) link() *link {
@@ -321,6 +335,17 @@ func (n *Net) Allow(b bool) {
 	n.mu.Lock()
 	n.allow = b
 	n.mu.Unlock()
+}
+
+// BreakWrites makes every further write of both engines fail while what is in flight can still be handed to them:
+// the way a connection dies when the first thing an engine notices is a failing write (peer reset) rather than the
+// end of its read side.
+func (n *Net) BreakWrites() {
+	if l := n.link(); l != nil {
+		l.mu.Lock()
+		l.writeBroken = true
+		l.mu.Unlock()
+	}
 }
 
 // Cut drops the connection; in-flight frames of both directions are lost. No new connection until allowed.
@@ -643,6 +668,17 @@ func (s *Sys) Send(onI bool) {
 
 func (s *Sys) Cut() {
 	s.note("cut")
+	s.Net.Cut()
+	s.ctl.Barrier()
+}
+
+// CutWritesFirst: the connection dies with the writes failing first — both engines still get what was in flight
+// (and try to answer it into the broken connection), then the connection ends for good.
+func (s *Sys) CutWritesFirst() {
+	s.note("cut (writes fail first)")
+	s.Net.Allow(false)
+	s.Net.BreakWrites()
+	s.Flow(200)
 	s.Net.Cut()
 	s.ctl.Barrier()
 }
